@@ -304,8 +304,27 @@ def run_all(binary, tier):
     viol += list(analyse(pool, canon, M))
     nseq, sv = seq_law(d, pool, canon, M)
     viol += sv
+    viol += closure_copy_law(d)
     d.close()
     return pool, canon, M, viol, nseq
+
+
+CLOSURES = ['{1}', '{}', '1 (|A| {A})', '"x" (|A| {A A})', '[1] (|A| {A elem})', '1 (|A| 2 (|B| {A B add}))', '1 (|A| {A} (|F| {F}))', '{1} (|F| [F]) ', '1 (|A| [{A}, 2])',
+            '1 (|A| {A}) (|F| {F F})']
+
+
+def closure_copy_law(d):
+    """The order axioms exclude the hidden closure type, the copy clause does not: a value always equals its own copy."""
+    out = []
+    for s in CLOSURES:
+        for copyq, how in (("%s dup" % s, "dup"), ("[%s] dup (elem) swap (elem)" % s, "elements of a sequence and of its copy")):
+            r1, r2 = d.batch([drv.run_cmd(copyq + " ?eq", lim=3), drv.run_cmd(copyq + " !eq", lim=3)])
+            if r1.crash or r2.crash or r1.first("qerr") or r1.first("e"):
+                out.append(("closure-copy:%s|%s|odd" % (s, how), "`%s ?eq`: %r %r" % (copyq, r1.lines[:2], (r1.crash or r2.crash))))
+            elif len(r1.results()) != 1 or r2.results():
+                out.append(("closure-copy:%s|%s" % (s, how), "a value does not equal its own copy: `%s ?eq` yields %d results and `%s !eq` yields %d (%s)" % (
+                    copyq, len(r1.results()), copyq, len(r2.results()), how)))
+    return out
 
 
 _replay_cache = []
@@ -340,7 +359,7 @@ def main(ctx):
         "distinct_nontrivial": len(M),
         "rule": "state = ordered pair of pool values with its complete vector of 12 word and 6 infix outcomes evaluated on the engine; every axiom is then decided on "
                 "the matrix for all pairs and all triples; distinct = distinct ordered pair",
-        "bounds": {"pool_size": n, "files": [F1, F2, F3, F4, F5, F6], "closure_type": "excluded as stated"},
+        "bounds": {"pool_size": n, "files": [F1, F2, F3, F4, F5, F6], "closure_type": "excluded from the order axioms as stated; the copy clause is checked on %d closure values (with and without captured values)" % len(CLOSURES)},
     }
     return ctx.finish("model_checking", cov, [
         "the order between values of different types and between unrelated constant domains is unspecified; only consistency (total order axioms) is demanded there",
